@@ -35,6 +35,7 @@ def wf_entry(e):
         (19, z3.And(n == 4, A.is_inst(item(2), "PyLong_Type"))), (20, n >= 1), (21, n >= 1), (22, n >= 1), (23, n >= 1)]
     head = A.tuple_item(e, z3.IntVal(0))
     return z3.And(e != NULL, A.is_inst(e, "PyTuple_Type"), n >= 1, head != NULL, A.is_inst(head, "PyLong_Type"), A.long_fits(head),
+                  z3.Or(*[k == kk for kk, _w in by_kind]),          # one of the kinds the compound validator knows
                   *[z3.Implies(k == kk, w) for kk, w in by_kind])
 
 
@@ -116,9 +117,11 @@ class ValidateTraitComplex(CContract):
         def on_loop(ex2, s, st):
             init = s["inner"][0]
             if init.get("kind") == "DeclStmt":          # for (Py_ssize_t i = 0; ...)
-                return ex2.invariant_loop(s, st, {"i": INT, "type_info": Obj, "result": Obj, "type": Obj, "type2": Obj, "args": Obj,
+                outs = ex2.invariant_loop(s, st, {"i": INT, "type_info": Obj, "result": Obj, "type": Obj, "type2": Obj, "args": Obj,
                                                   "mode": INT, "rc": INT, "in_range": INT}, inv, heap=True, name="alternatives",
                                           variant=lambda e3, s3: s3.env["n"] - s3.env["i"])
+                # a jump to `error:` out of an iteration rejects the value although later alternatives were not tried
+                return [(kd, p, s2.gset("early_error", True) if kd == "goto" and p == "error" else s2) for (kd, p, s2) in outs]
             if not init.get("kind"):                     # for (; j < k; j++)
                 return ex2.invariant_loop(s, st, {"j": INT, "type2": Obj}, inv_asis, heap=False, name="as-is-types",
                                           variant=lambda e3, s3: s3.env["k"] - s3.env["j"])
@@ -161,6 +164,8 @@ class ValidateTraitComplex(CContract):
                ("post:no-store-no-write", z3.BoolVal(not any(r[0] == "store" for r in st.trace)))]
         if any(r[0] == "trait-error" for r in st.trace):
             out.append(("post:rejection-by-every-alternative-is-TraitError", z3.And(ret == NULL, st.exc == EXC["TraitError"])))
+            out.append(("post:the-value-is-rejected-only-after-every-alternative-was-tried", z3.BoolVal(not st.ghost.get("early_error")),
+                        dict(note="an alternative that does not accept must leave the decision to the ones after it")))
         return out + own_neutral(st, info, ret)
 
     def covers(self, cx, ov, info):
